@@ -8,13 +8,14 @@ caught by its own property's check is no longer caught (or only without a failin
 Does not rewrite meta.json.
 """
 import json, os, shutil, subprocess, sys, tempfile, glob
+HOME = os.environ.get("VERIF_HOME", "/verif")   # a worktree of /verif may run the drills with its own harness
 from concurrent.futures import ThreadPoolExecutor
 
 args = sys.argv[1:]
 jobs = 4
 if args and args[0] == "-j":
     jobs = int(args[1]); args = args[2:]
-names = sorted(os.path.basename(d) for d in glob.glob("/verif/seeded/*") if os.path.isdir(d))
+names = sorted(os.path.basename(d) for d in glob.glob(os.path.join(HOME, "seeded/*")) if os.path.isdir(d))
 if args:
     names = [n for n in names if any(n.startswith(a) for a in args)]
 
@@ -24,19 +25,19 @@ def sh(cmd, **kw):
 
 
 def one(name):
-    d = os.path.join("/verif/seeded", name)
+    d = os.path.join(HOME, "seeded", name)
     meta = json.load(open(os.path.join(d, "meta.json")))
     pid = meta["property"]
     wt = tempfile.mkdtemp(prefix="sreg-", dir="/tmp"); os.rmdir(wt)
     scratch = tempfile.mkdtemp(prefix="sreg-out-", dir="/tmp")
-    shutil.copy("/verif/lean/.lake/build/bin/drv", os.path.join(scratch, "drv"))
+    shutil.copy(os.path.join(HOME, "lean/.lake/build/bin/drv"), os.path.join(scratch, "drv"))
     try:
         if sh(f"git -C /repo worktree add -q {wt} HEAD").returncode != 0:
             return name, pid, "worktree-failed", meta
         if sh(f"git -C {wt} apply {d}/patch.diff").returncode != 0:
             return name, pid, "patch-does-not-apply", meta
         env = dict(os.environ, VERIF_REPO=wt, VERIF_OUT=scratch, VERIF_DRV=os.path.join(scratch, "drv"))
-        r = sh(f"cd /verif && ./check {pid} --no-audit", env=env)
+        r = sh(f"cd {HOME} && ./check {pid} --no-audit", env=env)
         vl = [l for l in r.stdout.splitlines() if l.startswith("VIOLATION")]
         if r.returncode == 1 and vl:
             verdict = "caught-no-input" if "no-failing-input-found" in vl[0] else "caught"
